@@ -341,7 +341,7 @@ example : actRun ⟨.pending, false, 100, 5, 0, 0, 0, 1000, 0⟩
 example : (actStep ⟨.pending, false, 100, 5, 0, 0, 0, 1000, 0⟩ (.close false true false)) = none := by decide
 
 /-! ### ===== Stage 3: deposits, withdrawals and swap orders interleaved (`Gmx.Life2`) =====
-Tied to the real `gmsol_store::entry` by `harness/h_store/src/bin/life2.rs` (engine `l2`). Histories are
+Tied to the real `gmsol_store::entry` by `harness/h_store/src/bin/l2life.rs` (engine `l2`). Histories are
 arbitrary `Op` lists of several users on one market; `run` returns the final state and the events of the
 successful transactions. -/
 section Life2
